@@ -11,7 +11,7 @@ CLAIMED = {
  'C05': ('proof', 'For each of the 69 published background names: genbbsub initialises, and the generate phase calls exactly the documented scheme routine(s) once, in order, with the daughter delayed by its decay time (ghost call log, all deviates); README lists, .lis files and genbbsub name tests compared as sets.', '3 C05',
          'scheme routines abstracted to "log id + append particles"; bb_utils.cc list parser and the CLI are not reachable'),
  'C06': ('proof', 'For each of the 51 isotopes (and unknown names) and ALL int levels and modes: genbbsub init accepts exactly when the reference GENBBsub (rendered per name by f77c) accepts and sets Qbb/Zdbb/Adbb/EK/levelE/itrans02 identically; level table cross-checked with README Appendix 1; 4-beta, sign and mode-range rules asserted directly.', '3 C06',
-         'gA routing, energy-window validation and label<->mode bijection (decay0_generator.cc, bb_utils.cc) are STL/iostream code: not covered'),
+         'the rendered GENBBsub initialisation is cross-checked against the compiled reference on all 51 x 24 x 24 configurations on every run (tools/refgenbb.py); gA routing, energy-window validation and label<->mode bijection (decay0_generator.cc, bb_utils.cc) are STL/iostream code: not covered'),
  'C16': ('proof', 'Ground obligations on the real initialisers of the 6- and 8-point Gauss-Legendre rules of dgmlt1/dgmlt2: all moments up to degree 2n-1 to 1e-13, node antisymmetry, weight symmetry and positivity (bit-precise, no symbolic input).', '3 C16',
          'only the tabulated rules; exactness on arbitrary intervals is the affine change of variable (assumed); QNG, Simpson, golden section, divided differences, rotate_zyz, Fermi function are not decided'),
  'C03': ('proof', 'Every path of every *low cascade releases the tabulated level energy (nominal accounting defined by the L1/L2 emission contracts) within 3 keV: one CBMC query per routine over all deviates and all tabulated levels. decay0_bb under contract (contracts/bb.contract): for every legacy mode the emitted energies are computed from the budget e0 = Q - Elevel [- 4me | - EK - 2me | - 2EK] and the window [ebb1, ebb2] in the shape that the IEEE lemmas W0/W2/W9/W10/W11/W20 turn into the budget/window inequality.', '3 C03',
